@@ -368,7 +368,7 @@ impl Property for C17 {
     }
     fn budget(&self, tier: Tier) -> Budget {
         match tier {
-            Tier::Quick => Budget { release: 900_000, dbg: 300_000, workers: 8 },
+            Tier::Quick => Budget { release: 3_600_000, dbg: 1_200_000, workers: 8 },
             Tier::Thorough => Budget { release: 24_000_000, dbg: 6_000_000, workers: 16 },
         }
     }
